@@ -212,8 +212,61 @@ func (g *gen) function(e *env, depth int) []*lang.S {
 		}
 		fe.nums[p] = true
 	}
-	kind := g.pick(6, "fkind")
+	kind := g.pick(7, "fkind")
 	switch kind {
+	case 6:
+		// closures created inside a block which is executed again: a loop runs a block statement (if / try / inner loop /
+		// mutex) several times; in some passes the block defines a variable of its own and stores a closure reading (and
+		// counting up) that variable; the closures are called after the loop. What a closure captured must still be there
+		// when the same block statement has been entered again (with the guard false, or true).
+		fs, bv, iv := g.uniq("fs"), g.uniq("bv"), g.uniq("i")
+		mk := &lang.Func{Body: []*lang.S{
+			lang.Assign(lang.Var(bv), lang.Op("plus", lang.Var(bv), num(1))),
+			lang.Return(lang.Var(bv)),
+		}}
+		def := lang.LetS(bv, lang.Op("times", lang.Var(iv), num(10)))
+		if g.flip("bplain") {
+			def = lang.Assign(lang.Var(bv), lang.Op("times", lang.Var(iv), num(10)))
+		}
+		store := []*lang.S{def, lang.Assign(lang.Var(fs), lang.Call(lang.Var("add"), lang.Var(fs), &lang.E{K: "func", Fn: mk}))}
+		var guard *lang.E
+		if which := g.pick(4, "bguard"); which < 3 {
+			guard = lang.Op("==", lang.Var(iv), num(1+which)) // one pass only defines and captures
+		} else {
+			guard = lang.Op("<=", lang.Var(iv), num(2))
+		}
+		inner := &lang.S{K: "if", Br: []*lang.Branch{{Cond: guard, Body: store}}}
+		var block *lang.S
+		switch g.pick(4, "bkind") {
+		case 0:
+			block = inner
+		case 1:
+			block = &lang.S{K: "try", Body: []*lang.S{inner}, Ex: []*lang.Except{{Body: []*lang.S{lang.Mark("never")}}}}
+		case 2:
+			block = &lang.S{K: "for", Vars: []string{g.uniq("j")}, E: lang.List(num(1)), Body: []*lang.S{inner}}
+		default:
+			block = &lang.S{K: "mutex", Name: "bm", Body: []*lang.S{inner}}
+		}
+		if g.flip("bdirect") && block != inner {
+			// the variable lives in the scope of the try / loop / mutex block itself
+			block.Body = []*lang.S{{K: "if", Br: []*lang.Branch{{Cond: guard, Body: []*lang.S{lang.Mark("pass")}}}}, def, store[1]}
+			if guard.K == "==" {
+				// define and capture in ONE pass only: leave the block early in the others
+				block.Body = append([]*lang.S{}, store...)
+				block = &lang.S{K: "if", Br: []*lang.Branch{{Cond: lang.Bool(true), Body: []*lang.S{{K: "if", Br: []*lang.Branch{{Cond: guard, Body: []*lang.S{block}}}}}}}}
+			}
+		}
+		out = append(out, lang.Assign(lang.Var(fs), lang.List()),
+			&lang.S{K: "for", Vars: []string{iv}, E: lang.List(num(1), num(2), num(3)), Body: []*lang.S{block, lang.Rec(lang.Call(lang.Var("len"), lang.Var(fs)))}})
+		ncl := 1
+		if guard.K != "==" {
+			ncl = 2
+		}
+		for i, n := 0, 1+g.pick(3, "bcalls"); i < n; i++ {
+			out = append(out, lang.Rec(lang.Call(lang.Idx(lang.Var(fs), num(g.pick(ncl, "bwhich"))))))
+		}
+		g.tag("closure-from-a-block-entered-again")
+		return out
 	case 5: // parameter binding: every count of arguments from 0 to the parameter count; missing ones read as their default or null
 		pf := &lang.Func{Name: name}
 		npar := 1 + g.pick(4, "pbn")
@@ -712,7 +765,7 @@ func genCase(rt *rapid.T) Case {
 		p.Body = append(p.Body, lang.Probe("final-"+n, n))
 	}
 	var tags []string
-	for _, t := range []string{"shadow-let", "shadow-param", "closure-after-return", "alias", "param-reference", "nested-path", "numeric-map-key", "object-with-super", "read-after-write-unusual-key", "fewer-arguments-than-parameters", "container-default-changed-in-place", "same-assignment-other-index"} {
+	for _, t := range []string{"shadow-let", "shadow-param", "closure-after-return", "alias", "param-reference", "nested-path", "numeric-map-key", "object-with-super", "read-after-write-unusual-key", "fewer-arguments-than-parameters", "container-default-changed-in-place", "same-assignment-other-index", "closure-from-a-block-entered-again"} {
 		if g.tags[t] {
 			tags = append(tags, t)
 		}
